@@ -182,13 +182,33 @@ pub fn program_case_sel(labels: &[String], conds: &[Fm], text: &str, sorting: us
             }
         }
     }
+    // the same parser object is sorted AFTER it has served the instantiations above, and compiled from again
+    if sorting == 0 && labels.len() <= 64 {
+        for (again, how) in [("lexicographic", 1), ("alphanumeric", 2)] {
+            if how == 1 {
+                parser.varsort_lexi();
+            } else {
+                parser.varsort_alphanum();
+            }
+            let what = format!("re-sorted parser ({})", again);
+            if native {
+                match guard(|| Adf::from_parser(&parser)) {
+                    Ok(adf) => check_object(&adf, labels, conds, None, &format!("native[{}]", what), &mut out),
+                    Err(m) => out.push((format!("native[{}]:panic", what), m)),
+                }
+            }
+            match guard(|| Adf::from_biodivine(&BdAdf::from_parser(&parser))) {
+                Ok(adf) => check_object(&adf, labels, conds, None, &format!("from_biodivine[{}]", what), &mut out),
+                Err(m) => out.push((format!("from_biodivine[{}]:panic", what), m)),
+            }
+        }
+    }
     adf_bdd::verif::set_budget(None);
     out
 }
 
 fn small_program(c: &Case) -> (Vec<String>, Vec<Fm>, Vec<u8>) {
-    let n = c.tts.len();
-    (names(n), c.fms.clone(), grounded(&c.tts))
+    (c.labels.clone(), c.fms.clone(), grounded(&c.tts))
 }
 
 pub fn run_c09(run: &Run) {
@@ -201,6 +221,7 @@ pub fn run_c09(run: &Run) {
         Source::Formulas(format!("{} formulas as small ADFs", phi.len()), std::sync::Arc::new(phi)),
         Source::FamAllWriters(fam_a(2)),
         Source::Fam(fam_f(3, 2)),
+        Source::Spelled,
     ];
     for src in srcs {
         let res = run.par_family(
